@@ -44,6 +44,12 @@ let () =
   let ds = ref [] and qs = ref [] and fs = ref [] and kind = ref "C" and cur_uf = ref false in
   let bound = ref 0 and wits = ref [] in
   let chars = ref [] and pmode = ref "f" in
+  let cmops = ref [] and gams = ref [] in
+  let etas = ref [] and front = ref [] in
+  let str_of_keys l = String.concat "," (List.map (fun k -> string_of_int (int_of_nat k)) l) in
+  let str_of_triples ts = String.concat ";" (List.map (fun ((r, a), j) -> string_of_int (int_of_nat r) ^ ":" ^ str_of_keys a ^ ":" ^ str_of_keys j) ts) in
+  let str_of_comp (v, f) = String.concat " " (List.map (fun (k, ts) -> string_of_int (int_of_nat k) ^ "=" ^ str_of_triples ts) v) ^ "/" ^
+                           String.concat " " (List.map (fun (k, ts) -> string_of_int (int_of_nat k) ^ "=" ^ str_of_triples ts) f) in
   let rec str_of_form = function FTop -> "T" | FBot -> "F" | FVar i -> "v" ^ string_of_int (int_of_nat i) | FNot f -> "! " ^ str_of_form f
     | FAnd (f, g) -> "& " ^ str_of_form f ^ " " ^ str_of_form g | FOr (f, g) -> "| " ^ str_of_form f ^ " " ^ str_of_form g in
   let str_of_name nm = String.concat "" (List.map (fun c -> String.make 1 (Char.chr (int_of_nat c))) nm) in
@@ -68,6 +74,22 @@ let () =
            kind := "G"; cur_id := id; cur_n := int_of_string n; cur_w := (w = "1"); cur_uf := (uf = "1"); ds := []; fs := []
        | "I" :: id :: n :: b :: _ -> kind := "I"; cur_id := id; cur_n := int_of_string n; bound := int_of_string b; ds := []; qs := []; wits := []
        | "X" :: qi :: r -> wits := (nat_of_int (int_of_string qi), List.map (fun t -> nat_of_int (int_of_string t)) r) :: !wits
+       | "Y" :: id :: n :: b :: _ -> kind := "Y"; cur_id := id; cur_n := int_of_string n; bound := int_of_string b; ds := []; qs := []; etas := []; front := []
+       | "ET" :: r -> etas := List.map (fun t -> nat_of_int (int_of_string t)) r :: !etas
+       | "FR" :: r -> front := List.map (fun t -> nat_of_int (int_of_string t)) r :: !front
+       | "V" :: id :: n :: _ -> kind := "V"; cur_id := id; cur_n := int_of_string n; tbl := []; ds := []; cmops := []; gams := []
+       | "NA" :: r -> cmops := CAdd (parse_cond r) :: !cmops
+       | "NR" :: k :: _ -> cmops := CRemove (nat_of_int (int_of_string k)) :: !cmops
+       | "GA" :: r ->
+           (* G p k v ... m k v ... : gamma+ entries after p, gamma- entries after m *)
+           let rec go mode gp gm = function
+             | [] -> (List.rev gp, List.rev gm)
+             | "p" :: rest -> go "p" gp gm rest
+             | "m" :: rest -> go "m" gp gm rest
+             | k :: v :: rest -> let e = (nat_of_int (int_of_string k), nat_of_int (int_of_string v)) in
+                 if mode = "p" then go mode (e :: gp) gm rest else go mode gp (e :: gm) rest
+             | _ -> failwith "G: odd" in
+           gams := (go "p" [] [] r, ([], [])) :: !gams
        | "P" :: id :: m :: _ -> kind := "P"; cur_id := id; pmode := m; chars := []
        | "T" :: r -> chars := List.rev_append (List.map (fun t -> nat_of_int (int_of_string t)) r) !chars
        | "R" :: id :: n :: _ -> kind := "R"; cur_id := id; cur_n := int_of_string n; tbl := []; rops := []
@@ -96,7 +118,22 @@ let () =
        | "D" :: r -> ds := parse_cond r :: !ds
        | "Q" :: r -> qs := parse_cond r :: !qs
        | "E" :: _ ->
-           if !kind = "P" then begin
+           if !kind = "Y" then begin
+             let ((rows, fchk), missing) = run_crep (nat_of_int !cur_n) (List.rev !ds) (List.rev !qs) (List.rev !etas) (List.rev !front) (nat_of_int !bound) in
+             let bs l = String.concat "" (List.map (fun b -> if b then "1" else "0") l) in
+             List.iteri (fun i (((c, p), ranks), accs) ->
+               Printf.printf "%s\teta%d\t%s\t%s\t%s\t%s\n" !cur_id i (if c then "1" else "0") (if p then "1" else "0") (str_of_keys ranks) (bs accs)) rows;
+             Printf.printf "%s\tfront\t%s\t%s\n" !cur_id (bs fchk) (String.concat ";" (List.map str_of_keys missing))
+           end else if !kind = "V" then begin
+             let pr = List.map (fun (w, r) -> (w, match r with Some x -> x | None -> O)) (List.rev !tbl) in
+             let gl = List.map fst (List.rev !gams) in
+             let (((alt, fast), ((regk, inc), incref)), checks) = run_crev (List.rev !ds) pr (List.rev !cmops) (List.map (fun g -> (g, g)) gl |> List.map (fun ((gp, gm), _) -> (gp, gm))) [] in
+             Printf.printf "%s\talt\t%s\n" !cur_id (str_of_comp alt);
+             Printf.printf "%s\tfast\t%s\n" !cur_id (str_of_comp fast);
+             Printf.printf "%s\tinc\t%s\t%s\t%s\n" !cur_id (str_of_keys regk) (str_of_comp inc) (str_of_comp incref);
+             List.iteri (fun i (ok, accs) -> Printf.printf "%s\tchk%d\t%s\t%s\n" !cur_id i (if ok then "1" else "0")
+                            (String.concat "" (List.map (fun b -> if b then "1" else "0") accs))) checks
+           end else if !kind = "P" then begin
              let cs = List.rev !chars in
              if !pmode = "f" then
                (match run_parse_formula cs with
